@@ -140,10 +140,11 @@ def bezLast (N : Nat) (ix : List Int) (am : Nat → Nat) : List Ev :=
   let r := bezRight N ix am (ix.length - 3)
   [.ix (-2), .y (ixGet ix (-2)), .ix (-1), .y (ixGet ix (-1)), .xs r N, .ix (-1), .x (ixGet ix (-1)), .os r N]
 
-/-- `np.argmin` of an empty array raises `ValueError`: nothing after it is executed -/
+/-- `np.argmin` of an empty array raises `ValueError`: nothing after it is executed (the read `x[next_idx]` that
+follows the slice in the trace is part of `argmin`'s argument and is evaluated before the call) -/
 def cutAtEmpty (N : Nat) : List Ev → List Ev
   | [] => []
-  | .am lo hi :: t => if sliceLen lo hi N = 0 then [.am lo hi] else .am lo hi :: cutAtEmpty N t
+  | .am lo hi :: t => if sliceLen lo hi N = 0 then .am lo hi :: t.take 1 else .am lo hi :: cutAtEmpty N t
   | e :: t => e :: cutAtEmpty N t
 
 /-- `_quadratic_bezier_spline(x, y, indices)` with `N = len(x)`, `ny = len(y)`, `M = len(indices)`:
